@@ -307,5 +307,6 @@ __CPROVER_ensures(self->g_date[g_j] == SNAP_j && self->g_date_n == OLD(self->g_d
     dropped=['std::string _formatted_date as data pointer + size (the last at most 24 characters of the rendered text: the function touches the last 9 at most)'],
     trusted=['fmtquill::format_int by an executable model (minimal decimal representation, digits defined by SPEC_DIGIT)', 'memcpy as a byte loop'],
     assumes=['the zero field of width 3 / 6 / 9 was appended immediately before and the value has at most that many digits: both are preconditions the caller is checked against in unit TF.format_timestamp'],
+    snapshot=[('v', 'extracted_fractional_seconds'), ('w', 'g_w')], replay=dict(template='tf_frac.cpp', op='write_frac'),
     min_obligations=6)
 UNITS.append(tf_write_frac)
